@@ -25,7 +25,7 @@ func init() {
 			"a bar with zero TimeSig inherits the previous bar's signature at AddBar time (documented behaviour of AddBar)",
 			"per-track assignment in ToSMF1 (events of track number n on the n-th used track) is read as part of 'multi-track export'",
 		},
-		Require: []string{"note_offs_edited_in_exported_files", "non_channel_events_in_bars", "songs", "bars_num_ge_8", "sig_changes", "notes_with_duration", "smf1_tracks", "compound_meters", "in_place_edits_between_exports", "shared_pattern_songs"},
+		Require: []string{"note_offs_edited_in_exported_files", "songs_beyond_2^20_events", "non_channel_events_in_bars", "songs", "bars_num_ge_8", "sig_changes", "notes_with_duration", "smf1_tracks", "compound_meters", "in_place_edits_between_exports", "shared_pattern_songs"},
 		Run:     runC20,
 	})
 }
@@ -468,6 +468,27 @@ func runC20(c *mon.Ctx) {
 		}
 		hashSong(c, s)
 		checkSongEdited(c, s, r.Intn(nb), sigs[r.Intn(len(sigs))])
+	})
+
+	// one song whose export holds more than 2^20 events (each note counts twice: on and off)
+	c.Each("beyond-2^20-events", 1, func(_ int64, r *mon.Rand) {
+		s := &c20Song{res: 96}
+		nb := 700
+		for k := 0; k < nb; k++ {
+			s.sigs = append(s.sigs, [2]uint8{0, 0}) // 4/4: 32 thirty-second notes per bar
+		}
+		target := 1<<20 + 2000
+		for n := 0; n < target; {
+			bar := r.Intn(nb - 1)
+			pos := uint8(r.Intn(32))
+			dur := uint8(1 + r.Intn(30))
+			s.evs = append(s.evs, c20Event{bar: bar, track: r.Intn(4), pos: pos, dur: dur, msg: []byte{0x90 | byte(r.Intn(16)), byte(r.Intn(128)), byte(1 + r.Intn(127))}})
+			n += 2
+		}
+		c.CurPayload([]byte(fmt.Sprintf("song with %d notes (%d events) in %d bars", len(s.evs), 2*len(s.evs), nb)))
+		checkSong(c, s)
+		c.Count("songs_beyond_2^20_events", 1)
+		c.DistinctBytes([]byte("beyond-2^20"))
 	})
 
 	c.Each("random-songs", c.N(3000, 3_000_000), func(i int64, r *mon.Rand) {
